@@ -35,8 +35,9 @@ RULE = (
     "coordinates (BasicAnnotationDb / GffAnnotationDb, features may extend past the sequence ends), or GFF text via "
     "annotate_from_gff; history of depth 0-4 (thorough 1-6) over slice / rc / copy(sliced|unsliced) / copy.deepcopy / "
     "degap / slice-by-feature; a gapped-parent variant ends in degap. After every step: get_features(allow_partial "
-    "on/off) for the whole view, for windows drawn from the lattice of view and span boundaries (also passed as "
-    "negative indices) and by biotype; for each returned feature get_slice, map coordinates and parent[feature]. "
+    "on/off) for the whole view, for windows drawn from the lattice of view and span boundaries (each written in one "
+    "of the forms Python slicing allows: both bounds >= 0, both negative, negative stop with non-negative or omitted "
+    "start, negative start with positive or omitted stop, bounds omitted) and by biotype; for each returned feature get_slice, map coordinates and parent[feature]. "
     "Alignment level (old Alignment; there is no new-type Alignment in this tree): 1-3 (thorough 1-5) gapped rows, "
     "sequence features on rows introduced by add_feature(seqid=) / loaded db / GFF, alignment features "
     "(on_alignment=True, either strand); history over column slice / rc / copy / deepcopy(sliced|unsliced); after "
@@ -281,10 +282,45 @@ def gen_windows(rng, view, spans_list, k):
         if b == 0 or a == b:
             continue
         form = "pos"
-        if rng.random() < 0.12 and a > 0 and b < n:
-            form = "neg"
+        if rng.random() < 0.45:
+            # the same window written the other ways Python slicing allows
+            forms = []
+            if a > 0 and b < n:
+                forms.append("neg")  # both negative
+            if b < n:
+                forms.append("negstop")  # start >= 0 (omitted when 0), stop negative
+            if a > 0:
+                forms.append("negstart")  # start negative, stop > 0 (omitted when it is the end)
+            if a == 0 or b == n:
+                forms.append("omitted")  # start and/or stop left out
+            if forms:
+                form = rng.choice(forms)
         out.append([a, b, form])
     return out
+
+
+def window_kwargs(a, b, n, form):
+    """start/stop arguments that denote view[a:b] under Python slicing rules, written in the given form"""
+    if form == "neg":
+        return {"start": a - n, "stop": b - n}
+    if form == "negstop":
+        kw = {"stop": b - n}
+        if a > 0:
+            kw["start"] = a
+        return kw
+    if form == "negstart":
+        kw = {"start": a - n}
+        if b < n:
+            kw["stop"] = b
+        return kw
+    if form == "omitted":
+        kw = {}
+        if a > 0:
+            kw["start"] = a
+        if b < n:
+            kw["stop"] = b
+        return kw
+    return {"start": a, "stop": b}
 
 
 def gen_seq_scn(rng, impl, intro, deep=False):
@@ -816,10 +852,7 @@ def query_seq(ctx, obj, parent, view, model, hyps, win, ap, level="seq"):
         a, b, form = win
         relwin = (a, b)
         qkind = "window-" + form
-        if form == "neg":
-            kwargs.update(start=a - n, stop=b - n)
-        else:
-            kwargs.update(start=a, stop=b)
+        kwargs.update(window_kwargs(a, b, n, form))
     res.count(f"{level}:query-{qkind}-{'partial' if ap else 'strict'}")
     try:
         got = list(obj.get_features(**kwargs))
@@ -855,6 +888,13 @@ def query_seq(ctx, obj, parent, view, model, hyps, win, ap, level="seq"):
         )
         return
     check_seq_features(ctx, obj, parent, view, model, hyps, relwin, ap, got, qkind, level=level)
+
+
+def mixed_windows(n):
+    """two fixed windows with mixed-sign bounds for views reached through alignments / collections"""
+    if n < 3:
+        return []
+    return [[1, n - 1, "negstop"], [1, n, "negstart"], [0, n - 1, "negstop"]]
 
 
 def observe_seq(ctx, obj, parent, view, model, hyps, windows, level="seq"):
@@ -1036,7 +1076,10 @@ def run_seq_scn(res, scn):
                 return
             cur, view = nxt, nview
             extra = [fresh_root(P, view, model, D5, off=off, gapped=gapped_degap)] if st[0] == "degap" else []
-            if gapped_degap:
+            if gapped_degap and not expv:
+                # G: the slice held only gap characters, so nothing is left to query (empty windows are not queried)
+                res.count("gapped-degap-left-nothing")
+            elif gapped_degap:
                 observe_degapped(ctx, cur, P, view, model, extra)
             else:
                 observe_seq(ctx, cur, P, view, model, hyps_for(view, extra), windows[i + 1])
@@ -1165,11 +1208,14 @@ def check_aln_feature(ctx, obj, rows, view, f, cols_all, strand, kind, nt_sig, a
     lo, hi, rev = view
     first = next(iter(rows.values()))
     if kind == "alnfeat" and rev and not first[lo:hi].replace("-", ""):
-        # the alignment reads its own strand from the first row's sequence, which is empty here
+        # the alignment reads its own strand from a row's sequence; a row without residues in the view has lost it
         _w = ctx.witness
 
         def strand_witness(mech, **detail):
-            _w("C04/alignment-feature-strand-read-from-empty-first-row", original_mechanism=mech, **detail)
+            if mech == D8:
+                _w(mech, **detail)  # explained by the un-rebased spans alone
+            else:
+                _w("C04/alignment-feature-strand-read-from-empty-first-row", original_mechanism=mech, **detail)
 
         ctx = _Proxy(ctx, strand_witness)
     kept = [c for c in cols_all if lo <= c < hi]
@@ -1564,9 +1610,10 @@ def observe_rows(ctx, rows, scn, view):
             return
         res.count("aln:get_seq-queries")
         for ap in (True, False):
-            query_seq(ctx, s, U, (slo, shi, rev), model, None, None, ap, level="alnrow")
-            if ctx.failed:
-                return
+            for win in [None] + mixed_windows(shi - slo):
+                query_seq(ctx, s, U, (slo, shi, rev), model, None, win, ap, level="alnrow")
+                if ctx.failed:
+                    return
     # degap -> collection
     ctx.op = base_op + "+degap"
     res.evals += 1
@@ -1778,9 +1825,10 @@ def run_coll_scn(res, scn):
         ctx.witness(f"C04/coll-get_seq/view-string/{impl}", got=str(obj), expected=expv, view=view)
         return
     for ap in (True, False):
-        query_seq(ctx, obj, s, view, model, None, None, ap, level="collseq")
-        if ctx.failed:
-            return
+        for win in [None] + mixed_windows(view[1] - view[0]):
+            query_seq(ctx, obj, s, view, model, None, win, ap, level="collseq")
+            if ctx.failed:
+                return
 
 
 # ---------------------------------------------------------------------------
@@ -1859,6 +1907,11 @@ REQUIRED = [
     "seq:query-whole-strict",
     "seq:query-window-pos-partial",
     "seq:query-window-pos-strict",
+    "seq:query-window-negstop-partial",
+    "seq:query-window-negstop-strict",
+    "seq:query-window-negstart-strict",
+    "seq:query-window-neg-strict",
+    "seq:query-window-omitted-strict",
     "seq:slice-decisions",
     "seq:getitem-feature",
     "op:slice",
